@@ -14,6 +14,7 @@ func init() { Registry["C11"] = c11 }
 
 func c11(r *Report) {
 	defer c11Seed5(r)
+	defer c11Seed6(r)
 	p := r.P
 	const rev = "vcr/revocation"
 	const ver = "vcr/verifier"
